@@ -180,7 +180,12 @@ pub fn verif_global_fresh() -> bool {
             *dmd = Dmd::new();
             true
         }
-        Err(_) => false,
+        Err(poisoned) => {
+            // an earlier history panicked under the lock: start over with a usable mutex as well
+            *poisoned.into_inner() = Dmd::new();
+            DMD.clear_poison();
+            false
+        }
     }
 }
 
